@@ -10,6 +10,10 @@ Prints one summary line per step; never leaves /repo modified.
 import os, subprocess, sys, shutil, json, re, tempfile
 
 ENV = dict(os.environ, GOFLAGS="-mod=mod", GOPROXY="off", GOSUMDB="off")
+# SEEDCHECK_REPO / SEEDCHECK_VERIF: run against a scratch pair (a clean worktree of /repo and a copy of /verif
+# whose go.mod points at it) instead of /repo and /verif themselves - e.g. while something else needs /repo clean
+REPO = os.environ.get("SEEDCHECK_REPO", "/repo")
+VERIF = os.environ.get("SEEDCHECK_VERIF", "/verif")
 
 def sh(cmd, cwd=None, timeout=1800):
     p = subprocess.run(cmd, shell=True, cwd=cwd, env=ENV, capture_output=True, text=True, timeout=timeout)
@@ -53,28 +57,28 @@ def main():
         finally:
             sh(f"git -C /repo worktree remove --force {wt}")
     # run checks against /repo with the patch applied
-    rc, out = sh("git -C /repo status --porcelain")
-    assert out.strip() == "", "/repo not clean: " + out
-    rc, out = sh(f"git -C /repo apply {patch} 2>&1 || git -C /repo apply --3way {patch}")
+    rc, out = sh(f"git -C {REPO} status --porcelain")
+    assert out.strip() == "", REPO + " not clean: " + out
+    rc, out = sh(f"git -C {REPO} apply {patch} 2>&1 || git -C {REPO} apply --3way {patch}")
     if rc != 0:
         res["repo_apply"] = "FAILED: " + out[-400:]
-        sh("git -C /repo checkout HEAD -- . && git -C /repo clean -fdq")
+        sh(f"git -C {REPO} checkout HEAD -- . && git -C {REPO} clean -fdq")
         print(json.dumps(res, indent=1)); return
     try:
         for p in props:
-            rc, out = sh(f"./check {p} quick --no-evidence", cwd="/verif", timeout=3000)
+            rc, out = sh(f"./check {p} quick --no-evidence", cwd=VERIF, timeout=3000)
             viol = [l for l in out.splitlines() if l.startswith("VIOLATION") or l.startswith("  oracle=")]
             res[f"{p}_quick"] = {"exit": rc, "found": viol[:6]}
             if rc == 0 and thorough > 0:
-                rc, out = sh(f"./check {p} thorough --no-evidence --max-seconds {thorough}", cwd="/verif", timeout=3000)
+                rc, out = sh(f"./check {p} thorough --no-evidence --max-seconds {thorough}", cwd=VERIF, timeout=3000)
                 viol = [l for l in out.splitlines() if l.startswith("VIOLATION") or l.startswith("  oracle=")]
                 res[f"{p}_thorough"] = {"exit": rc, "found": viol[:6], "tail": out.splitlines()[-1:]}
             if rc == 2:
                 res[f"{p}_output"] = out[-1500:]
     finally:
-        sh("git -C /repo checkout HEAD -- . && git -C /repo clean -fdq")
-        rc, out = sh("git -C /repo status --porcelain")
-        assert out.strip() == "", "/repo not clean after undo: " + out
+        sh(f"git -C {REPO} checkout HEAD -- . && git -C {REPO} clean -fdq")
+        rc, out = sh(f"git -C {REPO} status --porcelain")
+        assert out.strip() == "", REPO + " not clean after undo: " + out
     print(json.dumps(res, indent=1))
 
 main()
